@@ -419,10 +419,6 @@ operation of every sampled history. -/
 section AccumulatorHistory
 open GeoVerif.Accum
 
-theorem isRep_neg (y : F64) (h : F64.IsRep y) : F64.IsRep (F64.neg y) ∧ (F64.neg y).val = -y.val := by
-  obtain ⟨s, m, e, rfl⟩ := F64.exists_fin_of_isFinite y h.1
-  exact ⟨F64.IsRep.neg_fin s m e h, F64.neg_fin_val s m e⟩
-
 /-- **`remainder` renormalises** (seeded change C16F).  For every representable state `(_s, _t)` and every representable
 non-zero modulus `y` (no overflow): straight after `remainder(y)`
 * the reported value `operator()()` is the held sum `_s + _t` **rounded to working precision** (and `_t` is the exact rest),
@@ -532,30 +528,6 @@ theorem accum_history (ops : List Op) : ∀ (a : Acc) (v e : ℚ), F64.IsRep a.s
     obtain ⟨s1, t1, h1⟩ := accum_step_spec a op v e hs ht hr hop hv
     rw [run_cons]
     exact ih (step a op) (trackStep a (v, e) op).1 (trackStep a (v, e) op).2 s1 t1 hrest h1
-
-/-- histories without `+=` / `-=` are tracked **exactly** -/
-def noAdd : Op → Bool
-  | .add _ => false
-  | .sub _ => false
-  | _ => true
-
-theorem track_err_noAdd (ops : List Op) : ∀ (a : Acc) (v e : ℚ), 0 ≤ e → (∀ op ∈ ops, noAdd op = true) → (track a (v, e) ops).2 ≤ e := by
-  induction ops with
-  | nil => intro a v e _ _; exact le_refl _
-  | cons op ops ih =>
-    intro a v e he h
-    have hop := h op (by simp)
-    have hrest : ∀ o ∈ ops, noAdd o = true := fun o ho => h o (by simp [ho])
-    show (track (step a op) (trackStep a (v, e) op) ops).2 ≤ e
-    cases op with
-    | add y => simp [noAdd] at hop
-    | sub y => simp [noAdd] at hop
-    | set y => exact le_trans (ih _ _ 0 (le_refl _) hrest) he
-    | neg => exact ih _ _ _ he hrest
-    | rem y => exact ih _ _ _ he hrest
-    | nop => exact ih _ _ _ he hrest
-    | mulInt n => exact ih _ _ _ he hrest
-    | mulF y => exact ih _ _ _ he hrest
 
 /-- histories of `=`, negation, `remainder` and `const` members only: the held value is **exactly** the value of the history -/
 theorem accum_history_exact (ops : List Op) (a : Acc) (hs : F64.IsRep a.s) (ht : F64.IsRep a.t) (hno : NoOverflow a ops)
@@ -758,35 +730,6 @@ theorem sincosd_reduction_odd (sx : Bool) (mx : ℕ) (ex : ℤ) :
   rw [hq']
   exact quadSwitch_neg (fun a => by cases a <;> simp [Neg.neg, F64.neg]) _ s c
 
-/-- a finite number with non-zero value carries the sign of its value -/
-theorem signbit_fin_iff (s : Bool) (m : ℕ) (e : ℤ) (h : (F64.fin s m e).val ≠ 0) : s = true ↔ (F64.fin s m e).val < 0 := by
-  rw [F64.val_fin] at h ⊢
-  have hp := Dy.two_zpow_pos e
-  have hm : (0:ℚ) < m := by
-    rcases Nat.eq_zero_or_pos m with h0 | h0
-    · exfalso; apply h; rw [h0]; simp
-    · exact_mod_cast h0
-  cases s
-  · simp only [Bool.false_eq_true, if_false, false_iff, not_lt]; positivity
-  · simp only [if_true, true_iff]; nlinarith
-
-/-- adding `+0` to a representable number changes neither its value nor (when it is non-zero) its sign -/
-theorem add_zero_same (z : F64) (h : F64.IsRep z) (hb : |z.val| ≤ (2:ℚ) ^ (1000:ℤ)) :
-    F64.IsRep (z + 0) ∧ (z + 0).val = z.val ∧ (z.val ≠ 0 → (z + 0).signbit = z.signbit) := by
-  obtain ⟨f, r, _⟩ := F64.add_rn z 0 h.1 rfl 1000 (by norm_num) (by norm_num) (by rw [F64.val_zero, add_zero]; exact hb)
-  rw [F64.val_zero, add_zero] at r
-  have hv : (z + 0).val = z.val := h.2.rn_eq r
-  refine ⟨⟨f, by rw [hv]; exact h.2⟩, hv, fun hnz => ?_⟩
-  obtain ⟨s1, m1, e1, h1⟩ := F64.exists_fin_of_isFinite (z + 0) f
-  obtain ⟨s2, m2, e2, h2⟩ := F64.exists_fin_of_isFinite z h.1
-  have a1 := signbit_fin_iff s1 m1 e1 (by rw [← h1, hv]; exact hnz)
-  have a2 := signbit_fin_iff s2 m2 e2 (by rw [← h2]; exact hnz)
-  rw [← h1, hv] at a1
-  rw [← h2] at a2
-  rw [h1, h2]
-  show s1 = s2
-  rw [Bool.eq_iff_iff]; exact a1.trans a2.symm
-
 /--
 **`sincosde(x, 0)` takes the same path as `sincosd(x)` (partial).**  Full statement: for every finite `x` whose reduced
 angle `d₀ = remquo(x, 90)` has `|d₀| ≥ 1/16`, `sincosdeM k x 0 = sincosdM k x`.  Proved here: the reduced angle of `sincosde`
@@ -912,19 +855,6 @@ example : sincosBranch (F64.remainder (F64.fin false 135 0) qd) = Branch.s45 := 
 
 /-! ### `AngRound` below 1/16 -/
 
-theorem sixteenth_val : (F64.fin false 1 (-4)).val = 1 / 16 := by rw [F64.val_fin]; norm_num
-
-theorem rep_sixteenth : Rep ((1:ℚ) / 16) := ⟨1, -4, by norm_num, by norm_num, by norm_num⟩
-
-theorem grid57_sixteenth : OnGrid (-57) ((1:ℚ) / 16) := ⟨2 ^ 53, by norm_num⟩
-
-theorem lt_zero_iff (w : F64) (hw : w.isFinite = true) : F64.gt w 0 = true ↔ 0 < w.val := by
-  obtain ⟨s, m, e, rfl⟩ := F64.exists_fin_of_isFinite w hw
-  show Dy.lt (0 : F64).toDy (F64.fin s m e).toDy = true ↔ _
-  rw [Dy.lt_iff]
-  have : (0 : F64).toDy.val = 0 := by show (F64.fin false 0 0).toDy.val = 0; simp [F64.toDy, Dy.val]
-  rw [this]; rfl
-
 /-- **AngRound below 1/16** (every representable `|x| < 1/16`): the result is finite, keeps the sign bit of `x` (also for `±0`),
 its magnitude `a` is a multiple of the documented gap `1/16 − nextafter(1/16, 0) = 2^−57`, lies in `[0, 1/16]`, and is within half a gap
 (`2^−58`) of `|x|` — i.e. `AngRound` rounds `|x|` to the nearest multiple of `2^−57`.  Together with `angRound_big` this is the whole
@@ -1033,6 +963,55 @@ theorem angRound_odd (z : F64) : angRound (F64.neg z) = F64.neg (angRound z) := 
     generalize (if F64.gt ((F64.fin false 1 (-4)) - F64.abs (F64.fin s m e)) 0 = true
       then (F64.fin false 1 (-4)) - ((F64.fin false 1 (-4)) - F64.abs (F64.fin s m e)) else F64.abs (F64.fin s m e)) = y
     cases y <;> rfl
+
+/-- **AngNormalize is odd** (value and sign bit), for every finite argument: `AngNormalize(−x) = −AngNormalize(x)`, including the
+sign rules at `0` and `±180` -/
+theorem angNormalize_odd (sx : Bool) (mx : ℕ) (ex : ℤ) :
+    (angNormalize (F64.neg (F64.fin sx mx ex))).val = -(angNormalize (F64.fin sx mx ex)).val ∧
+    (angNormalize (F64.neg (F64.fin sx mx ex))).signbit = !(angNormalize (F64.fin sx mx ex)).signbit := by
+  obtain ⟨_, hrv⟩ := remquo_neg sx false mx 360 ex 0 (by norm_num)
+  obtain ⟨f1, _, _, z1⟩ := F64.remainder_spec (!sx) false mx 360 ex 0 (by norm_num)
+  obtain ⟨f2, _, _, z2⟩ := F64.remainder_spec sx false mx 360 ex 0 (by norm_num)
+  set y' := F64.remainder (F64.fin (!sx) mx ex) (F64.fin false 360 0) with hy'
+  set y := F64.remainder (F64.fin sx mx ex) (F64.fin false 360 0) with hy
+  obtain ⟨s1, m1, e1, h1⟩ := F64.exists_fin_of_isFinite y' f1
+  obtain ⟨s2, m2, e2, h2⟩ := F64.exists_fin_of_isFinite y f2
+  have hn : angNormalize (F64.neg (F64.fin sx mx ex)) = if F64.eq (F64.abs y') hd = true then copysign hd (F64.fin (!sx) mx ex) else y' := rfl
+  have hp : angNormalize (F64.fin sx mx ex) = if F64.eq (F64.abs y) hd = true then copysign hd (F64.fin sx mx ex) else y := rfl
+  have habs : (F64.abs y').val = (F64.abs y).val := by
+    rw [h1, h2, F64.val_abs_fin, F64.val_abs_fin, ← h1, ← h2, hrv, abs_neg]
+  have hbr : F64.eq (F64.abs y') hd = F64.eq (F64.abs y) hd := by
+    rw [Bool.eq_iff_iff, F64.eq_fin_iff _ _ (by rw [h1]; rfl) rfl, F64.eq_fin_iff _ _ (by rw [h2]; rfl) rfl, habs]
+  rw [hn, hp, hbr]
+  by_cases hb : F64.eq (F64.abs y) hd = true
+  · simp only [hb, if_true]
+    have c1 : copysign hd (F64.fin (!sx) mx ex) = F64.fin (!sx) 180 0 := rfl
+    have c2 : copysign hd (F64.fin sx mx ex) = F64.fin sx 180 0 := rfl
+    rw [c1, c2]
+    refine ⟨?_, rfl⟩
+    rw [F64.val_fin, F64.val_fin]; cases sx <;> simp
+  · have hb' : F64.eq (F64.abs y) hd = false := by simpa using hb
+    simp only [hb', Bool.false_eq_true, if_false]
+    refine ⟨hrv, ?_⟩
+    by_cases h0 : y.val = 0
+    · have h0' : y'.val = 0 := by rw [hrv, h0]; simp
+      rw [z1 h0', z2 h0]
+    · have h0' : y'.val ≠ 0 := by rw [hrv]; simpa using h0
+      rw [h1, h2]
+      show s1 = !s2
+      have a1 := signbit_fin_iff s1 m1 e1 (by rw [← h1]; exact h0')
+      have a2 := signbit_fin_iff s2 m2 e2 (by rw [← h2]; exact h0)
+      rw [← h1, hrv] at a1
+      rw [← h2] at a2
+      rcases lt_or_gt_of_ne h0 with hlt | hgt
+      · have hs2 : s2 = true := a2.mpr hlt
+        have hn1 : ¬ (s1 = true) := fun hs => by have := a1.mp hs; linarith
+        have hs1 : s1 = false := by cases s1 with | false => rfl | true => exact absurd rfl hn1
+        rw [hs1, hs2]; rfl
+      · have hn2 : ¬ (s2 = true) := fun hs => by have := a2.mp hs; linarith
+        have hs1 : s1 = true := a1.mpr (by linarith)
+        have hs2 : s2 = false := by cases s2 with | false => rfl | true => exact absurd rfl hn2
+        rw [hs1, hs2]; rfl
 
 end Trig
 
